@@ -1,0 +1,88 @@
+//go:build verif
+
+package rueidis
+
+import (
+	"context"
+	"time"
+
+	"github.com/redis/rueidis/internal/cmds"
+)
+
+// Verification hooks (build tag `verif` only): a scripted backend wrapped as the
+// unexported `conn`, so that real *singleClient / *standalone / *sentinelClient values
+// (the types the multi-key helpers switch on) can be driven without a network, plus
+// constructors for reply messages.
+
+// VerifBackend answers the commands a client sends.
+type VerifBackend interface {
+	Do(ctx context.Context, cmd Completed) RedisResult
+	DoMulti(ctx context.Context, multi ...Completed) []RedisResult
+	DoCache(ctx context.Context, cmd Cacheable, ttl time.Duration) RedisResult
+	DoMultiCache(ctx context.Context, multi ...CacheableTTL) []RedisResult
+}
+
+type verifConn struct{ b VerifBackend }
+
+var _ conn = (*verifConn)(nil)
+
+func (c *verifConn) Do(ctx context.Context, cmd Completed) RedisResult { return c.b.Do(ctx, cmd) }
+func (c *verifConn) DoCache(ctx context.Context, cmd Cacheable, ttl time.Duration) RedisResult {
+	return c.b.DoCache(ctx, cmd, ttl)
+}
+func (c *verifConn) DoMulti(ctx context.Context, multi ...Completed) *redisresults {
+	return &redisresults{s: c.b.DoMulti(ctx, multi...)}
+}
+func (c *verifConn) DoMultiCache(ctx context.Context, multi ...CacheableTTL) *redisresults {
+	return &redisresults{s: c.b.DoMultiCache(ctx, multi...)}
+}
+func (c *verifConn) Receive(context.Context, Completed, func(PubSubMessage)) error { return nil }
+func (c *verifConn) DoStream(context.Context, Completed) RedisResultStream {
+	return RedisResultStream{e: ErrClosing}
+}
+func (c *verifConn) DoMultiStream(context.Context, ...Completed) MultiRedisResultStream {
+	return MultiRedisResultStream{e: ErrClosing}
+}
+func (c *verifConn) Info() map[string]RedisMessage { return nil }
+func (c *verifConn) Version() int                  { return 7 }
+func (c *verifConn) AZ() string                    { return "" }
+func (c *verifConn) Error() error                  { return nil }
+func (c *verifConn) Close()                        {}
+func (c *verifConn) Dial() error                   { return nil }
+func (c *verifConn) Override(conn)                 {}
+func (c *verifConn) Acquire(context.Context) wire  { return nil }
+func (c *verifConn) Store(wire)                    {}
+func (c *verifConn) Addr() string                  { return "verif" }
+func (c *verifConn) SetOnCloseHook(func(error))    {}
+func (c *verifConn) OptInCmd() cmds.Completed      { return cmds.OptInCmd }
+
+func verifSingle(b VerifBackend, disableCache bool) *singleClient {
+	return newSingleClientWithConn(&verifConn{b: b}, cmds.NewBuilder(cmds.NoSlot), false, disableCache, nil, false)
+}
+
+// VerifSingleClient returns a real *singleClient over the backend.
+func VerifSingleClient(b VerifBackend, disableCache bool) Client { return verifSingle(b, disableCache) }
+
+// VerifStandaloneClient returns a real *standalone (no replicas, no redirect) over the backend.
+func VerifStandaloneClient(b VerifBackend, disableCache bool) Client {
+	s := &standalone{opt: &ClientOption{DisableCache: disableCache}}
+	s.primary.Store(verifSingle(b, disableCache))
+	return s
+}
+
+// VerifSentinelClient returns a real *sentinelClient whose master connection is the backend.
+func VerifSentinelClient(b VerifBackend, disableCache bool) Client {
+	c := &sentinelClient{cmd: cmds.NewBuilder(cmds.NoSlot), mOpt: &ClientOption{DisableCache: disableCache}}
+	c.mConn.Store(conn(&verifConn{b: b}))
+	return c
+}
+
+// Reply constructors.
+func VerifSimpleString(s string) RedisMessage { return strmsg(typeSimpleString, s) }
+func VerifBlobString(s string) RedisMessage   { return strmsg(typeBlobString, s) }
+func VerifErrMsg(s string) RedisMessage       { return strmsg(typeSimpleErr, s) }
+func VerifInt(n int64) RedisMessage           { return RedisMessage{typ: typeInteger, intlen: n} }
+func VerifNil() RedisMessage                  { return RedisMessage{typ: typeNull} }
+func VerifArray(vs ...RedisMessage) RedisMessage {
+	return slicemsg(typeArray, append([]RedisMessage(nil), vs...))
+}
